@@ -208,6 +208,7 @@ func C07(c *Ctx) {
 	c.R.Rule("C07-R8", "E3", "Compile establishes what processing assumes: a compiled spec has no null node and no null branch", 2)
 	c.R.Rule("C07-R9", "E3", "the matcher's recursion consumes the message: a bound variable string is not expanded again", 1)
 	c07Termination(c)
+	c.shareRule("C05", "C05-R1", "C07-R14", "Walk returns: its loop is a counted loop against the control's Limit, whatever the Limit is")
 	c.shareRule("C04", "C04-R17", "C07-R12", "a failing guard is surfaced: its error is handed on up to Step")
 	c.shareRule("C08", "C08-R9", "C07-R13", "a result that is not bindings is an error")
 	c.R.Rule("C07-R11", "E3+E5", "Walk's error transition: exempt only at node error; built from the state the failing step started from", 2)
